@@ -199,7 +199,7 @@ class AgentWorld(World):
         listening = False
         self.raw = {}
         for (i, kind) in enumerate(self.params['contacts']):
-            if kind == 'raw':
+            if kind in ('raw', 'raw-late'):
                 # a connection to X's listener with no TCPCL entity behind it: the harness writes its octets
                 if not listening:
                     res = self.bus_call(px, AGENT_PATH, 'listen', X_ADDR, 4556, iface=AGENT_IFACE)
@@ -208,7 +208,8 @@ class AgentWorld(World):
                     listening = True
                 conn = vnet.StreamConn('c%d' % i, addr0=('10.0.%d.9' % (i + 1), 43000 + i), addr1=(X_ADDR, 4556))
                 conn.sent_log = []
-                self.net.listeners[(X_ADDR, 4556)]._accept_q.append(conn)
+                if kind == 'raw':
+                    self.net.listeners[(X_ADDR, 4556)]._accept_q.append(conn)
                 self.contact_paths.append(None)
                 self.conns.append(conn)
                 self.raw[i] = conn
@@ -261,7 +262,15 @@ class AgentWorld(World):
 
     # ---- driving
     def proc_names(self):
-        return ['X'] + ['P%d' % i for (i, k) in enumerate(self.params['contacts']) if k != 'raw']
+        return ['X'] + ['P%d' % i for (i, k) in enumerate(self.params['contacts']) if not k.startswith('raw')]
+
+    def raw_arrive(self, i):
+        '''The connection of kind 'raw-late' reaches X's listener now.'''
+        lst = self.net.listeners.get((X_ADDR, 4556))
+        if lst is not None and not lst._closed:
+            lst._accept_q.append(self.raw[i])
+        else:
+            self.raw[i].closed[0] = self.raw[i].closed[1] = True
 
     def raw_write(self, i, data, eof=False):
         '''Octets (and possibly the end of the stream) from the entity-less connection i arrive at X.'''
